@@ -15,3 +15,22 @@ func verifYieldBlocked(label string) { VerifYieldBlocked(label) }
 // VerifConn exposes the client's connection (the harness asks the kernel how many unread bytes are
 // queued on it to know whether I/O is still in flight, and closes it when a schedule is abandoned).
 func (c *RPCClient) VerifConn() *net.TCPConn { return c.conn }
+
+// VerifPeek reads the dispatch table and the lock / shutdown state while every managed goroutine is
+// parked (used only to tighten trace conformance, never by the property monitors).
+func (c *RPCClient) VerifPeek() (seqs []uint64, dispatchLocked bool, shutdownLocked bool, shutdown bool) {
+	if c.dispatchLock.TryLock() {
+		c.dispatchLock.Unlock()
+	} else {
+		dispatchLocked = true
+	}
+	if c.shutdownLock.TryLock() {
+		c.shutdownLock.Unlock()
+	} else {
+		shutdownLocked = true
+	}
+	for k := range c.dispatch {
+		seqs = append(seqs, k)
+	}
+	return seqs, dispatchLocked, shutdownLocked, c.shutdown
+}
